@@ -217,4 +217,59 @@ example : Quiet .default (startStack (Ex.ch 0x24)) [Ex.idt "x", Ex.lbrace] = tru
 -- and an oracle that rejects its selector drops it
 example : styleRule Ex.no [] [Ex.ch 0x24, Ex.idt "x", Ex.lbrace, Ex.rbrace] = none := by decide
 
+/-! ## T4.4 truncation (token level)
+
+The tokenizer closes an open comment / string / `url(` and appends one EOF token (C05, T4.5 is the
+text-level link); here: what the structure level does with a token list that stops anywhere. -/
+
+/-- T4.4 (rules): `s₁` complete statements, then ANY tokens (the construct that was cut off, the EOF
+token, …).  Every rule that `s₁` alone produces is still there, in order, followed by whatever the rest
+adds — up to the URI of `@namespace` rules, which a later `@namespace` with the same prefix overwrites
+(`_replaceNamespaceURI`); style, media and all other rules are literally unchanged (`eraseUri` is the
+identity on them). -/
+theorem truncation_keeps_rules (O : Oracle) (M : List Cps) (s₁ junk : List Tok) (hs : StmtSeq s₁) :
+    ∃ more, (sheetLoop O M {} (s₁ ++ junk)).rules.map eraseUri =
+      (sheetLoop O M {} s₁).rules.map eraseUri ++ more := by
+  rw [sheetLoop_append O M s₁ junk hs]
+  exact sheetLoop_extends O M _ junk
+
+/-- T4.4 (declarations): `d₁` complete units of a declaration block, then ANY tokens: the items of `d₁`
+are all there, unchanged, followed by whatever the rest yields. -/
+theorem truncation_keeps_declarations (O : Oracle) (d₁ junk : List Tok) (hd : DeclSeq d₁) :
+    parseDecls O (d₁ ++ junk) = parseDecls O d₁ ++ parseDecls O junk :=
+  parseDecls_append O d₁ junk hd
+
+/-- T4.4 (a style rule cut off inside its block): after complete statements `s₁` comes a style rule whose
+selector `t :: sel'` is complete, then `{`, complete declarations `d₁`, an unfinished rest `junk` that
+never closes the block, and EOF.  The sheet has the rules of `s₁` and then — iff the selector is accepted
+— the style rule with exactly the declarations of `d₁` followed by what the unfinished rest yields:
+"constructs left open at the end of the input are closed there". -/
+theorem truncated_style_rule (O : Oracle) (M : List Cps) (s₁ : List Tok) (t : Tok)
+    (sel' d₁ junk : List Tok) (lb eof : Tok) (stk : List K)
+    (hs : StmtSeq s₁) (ht : startsRuleset t = true) (hsel : SelShape (t :: sel'))
+    (hq : Quiet .default [] (t :: sel') = true) (hl : lb.val = vLBrace) (hlt : lb.typ ≠ .eof)
+    (hd : DeclSeq d₁) (hx : nest [] (d₁ ++ junk) = some stk) (hxe : noEof (d₁ ++ junk) = true)
+    (he : eof.typ = .eof) :
+    (sheetLoop O M {} (s₁ ++ (t :: sel' ++ lb :: (d₁ ++ junk) ++ [eof]))).rules =
+      (sheetLoop O M {} s₁).rules ++
+        (if O.selOk (sheetLoop O M {} s₁).nsmap (t :: sel') then
+          [Rule.style (sheetLoop O M {} s₁).nsmap (t :: sel')
+            (parseDecls O d₁ ++ parseDecls O (junk ++ [eof]))] else []) := by
+  rw [sheetLoop_append O M s₁ _ hs,
+    sheetLoop_truncated_style O M _ t sel' (d₁ ++ junk) lb eof stk ht hsel hq hl hlt hx hxe he,
+    List.append_assoc, parseDecls_append O d₁ (junk ++ [eof]) hd]
+
+/-- the same rule when it is complete (for comparison: same selector, same first declarations). -/
+theorem complete_style_rule (O : Oracle) (ns : List (Cps × Cps)) (sel d₁ d₂ : List Tok) (lb rb : Tok)
+    (hsel : SelShape sel) (hl : lb.val = vLBrace) (hd : DeclSeq d₁)
+    (hb : Balanced (d₁ ++ d₂)) (hde : noEof (d₁ ++ d₂) = true) (hr : rb.val = vRBrace) (hrt : rb.typ ≠ .eof) :
+    styleRule O ns (sel ++ lb :: (d₁ ++ d₂) ++ [rb]) =
+      if O.selOk ns sel then some (sel, parseDecls O d₁ ++ parseDecls O d₂) else none := by
+  rw [styleRule_complete O ns sel (d₁ ++ d₂) lb rb hsel hl hb hde hr hrt, parseDecls_append O d₁ d₂ hd]
+
+-- non-vacuity: selector `a`, block `color:red;` complete, `top` unfinished
+example : SelShape [Ex.idt "a"] := ⟨by decide, by decide, by decide, by decide, by decide⟩
+example : nest [] ([Ex.idt "color", Ex.colon, Ex.idt "red", Ex.semi] ++ [Ex.idt "top", Ex.colon, Ex.fn "f("])
+    = some [K.paren] := by decide
+
 end CssVerif.Props.C04
